@@ -58,20 +58,20 @@ CommentDeviations ==
   {<<"comment_style", "sharp">>, <<"comment_style", "slash">>, <<"align_trailing_comment", TRUE>>,
    <<"trailing_comment_width", 3>>, <<"line_width", 20>>, <<"indent_style", "tab">>, <<"always_next_line_else_if", TRUE>>,
    <<"sort_declaration_property", TRUE>>, <<"return_statement_parenthesis", FALSE>>, <<"indent_case_labels", TRUE>>}
+StyleDeviations ==
+  {<<"comment_style", "sharp">>, <<"comment_style", "slash">>, <<"align_trailing_comment", TRUE>>, <<"line_width", 20>>,
+   <<"sort_declaration_property", TRUE>>}
 With(c, d) == [c EXCEPT ![d[1]] = d[2]]
 Singles == {With(Default, d) : d \in Deviations}
 Pairs   == {With(With(Default, d1), d2) : d1 \in Deviations, d2 \in Deviations}   \* includes the singles (d1 = d2)
 Cfgs == CASE CfgSet = "default" -> {Default}
           [] CfgSet = "singles" -> {Default} \cup Singles
           [] CfgSet = "comment" -> {Default} \cup {With(Default, d) : d \in CommentDeviations}
+          [] CfgSet = "style"   -> {Default} \cup {With(Default, d) : d \in StyleDeviations}
+          [] CfgSet = "align"   -> {Default, With(Default, <<"align_trailing_comment", TRUE>>),
+                                    With(With(Default, <<"align_trailing_comment", TRUE>>), <<"trailing_comment_width", 3>>)}
           [] CfgSet = "pairs"   -> {Default} \cup Pairs
-          [] CfgSet = "any"     ->      \* simulation: every option drawn independently
-               [indent_width : {1, 2, 4, 8}, trailing_comment_width : {1, 3}, indent_style : {"space", "tab"},
-                line_width : {-1, 20, 40, 80, 120}, explicit_string_concat : BOOLEAN, sort_declaration_property : BOOLEAN,
-                align_declaration_property : BOOLEAN, else_if : BOOLEAN, always_next_line_else_if : BOOLEAN,
-                return_statement_parenthesis : BOOLEAN, sort_declaration : BOOLEAN, align_trailing_comment : BOOLEAN,
-                comment_style : {"none", "sharp", "slash"}, should_use_unset : BOOLEAN, indent_case_labels : BOOLEAN,
-                break_compound_conditions : BOOLEAN]
+          [] CfgSet = "any"     -> {Default}      \* simulation draws RandomCfg instead
 
 (***************************************************************************)
 (* Generic structure of the abstract syntax: which fields hold children    *)
@@ -93,7 +93,7 @@ KidSeqs(k) ==
     [] k = "switch" -> {"cases"}         [] k = "case" -> {"body"}
     [] OTHER -> {}
 Sortable == {"backend", "director", "table", "probe", "dbackend"}
-PFields == {"p_blank", "p_kw", "p_paren", "p_explicit", "p_comma"}
+PFields == {"p_blank", "p_kw", "p_paren", "p_explicit", "p_comma", "p_lead"}
 
 Range(s) == {s[i] : i \in DOMAIN s}
 Bag(s) == [e \in Range(s) |-> Cardinality({i \in DOMAIN s : s[i] = e})]
@@ -200,9 +200,11 @@ Norm(x, c, fn) ==
        [] y.k = "dbackend" /\ c.sort_declaration_property -> [y EXCEPT !.props = InsSortFrom(@, 2)]
        [] OTHER -> y
 NormDecl(d, c) == Norm(d, c, d.k = "sub" /\ d.rtype # "")
+\* Formatter.Format: the output never starts with an empty line (decided after sorting, by position)
+FirstBlank(ds) == IF ds # <<>> /\ ~ds[1].p_lead THEN [ds EXCEPT ![1].p_blank = FALSE] ELSE ds
 Normalize(ds, c) ==
   LET n == [i \in DOMAIN ds |-> NormDecl(ds[i], c)]
-  IN IF c.sort_declaration THEN SortDeclsFrom(n, 2) ELSE n
+  IN FirstBlank(IF c.sort_declaration THEN SortDeclsFrom(n, 2) ELSE n)
 
 \* helper.go formatCommentCharacter: every leading marker character is replaced; /* */ is left alone.
 \* The marker classes are "#" (a run of #), "//" (a run of two or more /) and "/*".
@@ -244,30 +246,55 @@ Placements(d) ==
                          ij \in {p \in el \X el : p[1] <= p[2]}}
            ELSE {})
 
+\* The syntax of the decorated document: declaration i carries p_lead iff a comment sits in its first gap
+\* (every declaration template starts with its "lead" gap).
+RECURSIVE GapsBefore(_, _)
+GapsBefore(ds, i) == IF i = 1 THEN 0 ELSE GapsBefore(ds, i - 1) + Cardinality(GapIdx(ds[i - 1].t))
+Decorated(d, pl) ==
+  [i \in DOMAIN d.ds |-> d.ds[i].a @@ [p_lead |-> \E j \in DOMAIN pl : pl[j].at = GapsBefore(d.ds, i) + 1]]
+
 (***************************************************************************)
 (* Behaviour                                                               *)
 (***************************************************************************)
-Init == /\ doc \in Docs /\ cfg \in Cfgs /\ cm \in Placements(doc)
-        /\ phase = "src" /\ ast = DocA(doc) /\ cms = cm
+\* a document is picked first, then (in parallel over the documents) a configuration and a comment placement
+Init == /\ doc \in Docs /\ cfg = Default /\ cm = <<>>
+        /\ phase = "doc" /\ ast = Decorated(doc, <<>>) /\ cms = <<>>
+\* simulation mode (CfgSet = "any"): every option drawn independently, a random placement
+RandomCfg ==
+  [indent_width |-> RandomElement({1, 2, 4, 8}), trailing_comment_width |-> RandomElement({1, 3}),
+   indent_style |-> RandomElement({"space", "tab"}), line_width |-> RandomElement({-1, 20, 40, 80, 120}),
+   explicit_string_concat |-> RandomElement(BOOLEAN), sort_declaration_property |-> RandomElement(BOOLEAN),
+   align_declaration_property |-> RandomElement(BOOLEAN), else_if |-> RandomElement(BOOLEAN),
+   always_next_line_else_if |-> RandomElement(BOOLEAN), return_statement_parenthesis |-> RandomElement(BOOLEAN),
+   sort_declaration |-> RandomElement(BOOLEAN), align_trailing_comment |-> RandomElement(BOOLEAN),
+   comment_style |-> RandomElement({"none", "sharp", "slash"}), should_use_unset |-> RandomElement(BOOLEAN),
+   indent_case_labels |-> RandomElement(BOOLEAN), break_compound_conditions |-> RandomElement(BOOLEAN)]
+Choose == /\ phase = "doc" /\ phase' = "src"
+          /\ IF CfgSet = "any" THEN cfg' = RandomCfg /\ cm' = RandomElement(Placements(doc))
+                                ELSE cfg' \in Cfgs /\ cm' \in Placements(doc)
+          /\ cms' = cm' /\ ast' = Decorated(doc, cm')
+          /\ UNCHANGED doc
 
 Format == /\ phase \in {"src", "fmt1"}
           /\ ast' = Normalize(ast, cfg)
           /\ cms' = Restyle(cms, cfg)
           /\ phase' = IF phase = "src" THEN "fmt1" ELSE "fmt2"
           /\ UNCHANGED <<doc, cfg, cm>>
-Next == Format
+Next == Choose \/ Format
 Spec == Init /\ [][Next]_vars
 
 \* mechanism |= requirement
-Preserved    == phase # "src" => ReqEquiv(DocA(doc), ast, cfg)                 \* C03
-CommentsKept == phase # "src" => ReqComments(cm, cms, cfg)                     \* C15
+Preserved    == phase \in {"fmt1", "fmt2"} => ReqEquiv(Decorated(doc, cm), ast, cfg)                 \* C03
+CommentsKept == phase \in {"fmt1", "fmt2"} => ReqComments(cm, cms, cfg)                     \* C15
 Idempotent   == [][phase = "fmt1" => (ast' = ast /\ cms' = cms)]_vars          \* C14: the second pass stutters
-\* design sanity: the semantic rewrites commute
+\* design sanity: the semantic rewrites commute (up to presentation: which declaration loses the empty line at
+\* the top of the file depends on the order of sorting and printing)
 SemDevs == {<<"should_use_unset", TRUE>>, <<"sort_declaration_property", TRUE>>, <<"sort_declaration", TRUE>>, <<"else_if", TRUE>>}
 Commute == (phase = "src" /\ cfg = Default /\ cm = <<>>) =>
              \A d1 \in SemDevs, d2 \in SemDevs :
                LET both == With(With(Default, d1), d2)
-               IN Normalize(Normalize(ast, With(Default, d1)), both) = Normalize(ast, both)
+               IN CanonDoc(Normalize(Normalize(ast, With(Default, d1)), both), Default)
+                    = CanonDoc(Normalize(ast, both), Default)
 
 Enc(p) == CASE p.t = "w" -> p.s
             [] p.t = "g" -> "@" \o p.n \o ":" \o p.l \o ":" \o p.c \o ":" \o (IF p.d THEN "1" ELSE "0")
@@ -277,5 +304,5 @@ EncT(t) == [i \in DOMAIN t |-> Enc(t[i])]
 Order == IF cfg.sort_declaration \/ cfg.sort_declaration_property THEN "bag" ELSE "seq"
 Emit == phase = "fmt1" =>
           PrintT(<<"BEHAVIOUR", ToJson([fam |-> doc.fam, focus |-> doc.focus, toks |-> EncT(DocT(doc)), cm |-> cm, cfg |-> cfg,
-                                         ast |-> DocA(doc), expAst |-> ast, expCm |-> cms, order |-> Order])>>)
+                                         ast |-> Decorated(doc, cm), expAst |-> ast, expCm |-> cms, order |-> Order])>>)
 =============================================================================
